@@ -251,3 +251,86 @@ Section Step1.
     kred. exists S. repeat split; auto.
   Qed.
 End Step1.
+
+(* ================================================================ cbca_step_3 *)
+
+Section Step3.
+  Variables (nr nc : Z) (s2 : Z -> Z -> Q) (B : arr).
+  Hypothesis Hnr : 1 <= nr.
+  Hypothesis Hnc : 0 <= nc.
+  Hypothesis HB : ashape B = [nr; nc].
+  Hypothesis HBd : forall r c, 0 <= r < nr -> 0 <= c < nc -> fval (adata B [r; c]) (s2 r c).
+
+  (* the running sum of image column c after the rows < r *)
+  Let part (c r : Z) : Z -> Q :=
+    fold_left (fun a r0 => updz a r0 (qadd (a (r0 - 1)) (s2 r0 c)))
+              (zrange 1 (r - 1)) (updz (fun _ => 0%Q) 0 (s2 0 c)).
+
+  Let I_in (r c : Z) (st : state) : Prop :=
+    exists S o3, st = mkSt [Some (VInt nr); Some (VInt nc); Some (VInt r); o3] [Some B; Some S] /\
+      ashape S = [nr + 1; nc] /\
+      (forall r' c', 0 <= c' < c -> fval (adata S [r'; c']) (part c' (r + 1) r')) /\
+      (forall r' c', c <= c' < nc -> fval (adata S [r'; c']) (part c' r r')).
+  Let I_out (r : Z) (st : state) : Prop :=
+    exists S o2 o3, st = mkSt [Some (VInt nr); Some (VInt nc); o2; o3] [Some B; Some S] /\
+      ashape S = [nr + 1; nc] /\
+      (forall r' c', 0 <= c' < nc -> fval (adata S [r'; c']) (part c' r r')).
+
+  Lemma part3_succ : forall c r, 1 <= r ->
+    part c (r + 1) = updz (part c r) r (qadd (part c r (r - 1)) (s2 r c)).
+  Proof.
+    intros. unfold part. replace (r + 1 - 1) with ((r - 1) + 1) by lia.
+    rewrite zrange_app, zrange_one by lia. rewrite fold_left_app.
+    replace (1 + (r - 1)) with r by lia. reflexivity.
+  Qed.
+
+  Theorem ir_step3 :
+    exists S, run_kernel cbca_step_3 [] [B] = Some [S] /\ ashape S = [nr + 1; nc] /\
+      forall r c, 0 <= r < nr + 1 -> 0 <= c < nc -> fval (adata S [r; c]) (step3 nr s2 r c).
+  Proof.
+    unfold run_kernel. kred. do 3 (rewrite exec_block_cons; kred; rewrite ?HB; kred).
+    replace ((0 <=? nr + 1) && ((0 <=? nc) && true)) with true by lia.
+    rewrite exec_block_cons. kred. unfold row_copy. kred. rewrite HB. rewrite Z.eqb_refl.
+    rewrite !norm_idx_ok by lia.
+    rewrite exec_block_cons, exec_for. kred. rewrite py_range_up.
+    set (body := exec_block _). knorm.
+    set (S0 := mkArr _ _).
+    destruct (loop_zrange' body 2%nat I_out 1 (nr - 1)
+               (mkSt [Some (VInt nr); Some (VInt nc); None; None] [Some B; Some S0])) as (st' & E & I'); auto; try lia.
+    { exists S0, None, None. repeat split; auto.
+      intros r' c' Hc'. unfold S0, part. cbn [adata]. rewrite zrange_nil by lia. cbn [fold_left]. unfold updz.
+      destruct (r' =? 0) eqn:E0; [apply HBd; lia | apply fval_fin]. }
+    { (* one image row *)
+      intros r st0 Hr (S & o2 & o3 & -> & HS & Hcols).
+      unfold body. kred. rewrite exec_block_cons, exec_for. kred. rewrite py_range_up.
+      replace (nc - 0) with nc by lia. set (body2 := exec_block _). knorm.
+      destruct (loop_zrange' body2 3%nat (I_in r) 0 nc
+                 (mkSt [Some (VInt nr); Some (VInt nc); Some (VInt r); o3] [Some B; Some S])) as (st2 & E2 & I2); auto.
+      { exists S, o3. repeat split; auto. intros. lia. }
+      { (* one pixel *)
+        intros c st1 Hc (S1 & o3' & -> & HS1 & Hlt & Hge).
+        unfold body2. kred. rewrite exec_block_cons. kred.
+        rewrite (aread2_ok S1 (nr + 1) nc) by (auto; lia).
+        rewrite (aread2_ok B nr nc) by (auto; lia).
+        destruct (Hge (r - 1) c) as (q1 & E1 & H1); [lia|].
+        destruct (HBd r c) as (q2 & E2' & H2); [lia | lia |].
+        rewrite E1, E2'. kred. rewrite (awrite2_ok S1 (nr + 1) nc) by (auto; lia). kred.
+        rewrite exec_block_nil. eexists. split; [reflexivity|].
+        eexists _, (Some (VInt c)). split; [reflexivity|]. repeat split; auto.
+        - intros r' c' Hc'. destruct (Z.eq_dec c' c) as [->|Hne].
+          + rewrite part3_succ by lia. unfold updz. destruct (r' =? r) eqn:E0.
+            * assert (r' = r) by lia. subst r'. rewrite aupd2_same.
+              exists (Qred (q1 + q2)). split; [reflexivity|]. rewrite Qred_correct, qadd_ok, H1, H2. reflexivity.
+            * rewrite aupd2_other by (intro X; inversion X; lia). apply Hge. lia.
+          + rewrite aupd2_other by (intro X; inversion X; lia). apply Hlt. lia.
+        - intros r' c' Hc'. rewrite aupd2_other by (intro X; inversion X; lia). apply Hge. lia. }
+      rewrite E2. replace (0 + nc) with nc in I2 by lia.
+      destruct I2 as (S2 & o3'' & -> & HS2 & Hlt2 & _).
+      rewrite exec_block_nil. eexists. split; [reflexivity|].
+      exists S2, (Some (VInt r)), o3''. repeat split; auto. }
+    rewrite E. replace (1 + (nr - 1)) with nr in I' by lia.
+    destruct I' as (S & o2 & o3 & -> & HS & Hcols).
+    rewrite exec_block_nil. kred. exists S. repeat split; auto.
+    intros r c Hr Hc. apply (Hcols r c Hc).
+  Qed.
+End Step3.
